@@ -444,11 +444,14 @@ struct KaLink {
 pub struct KeepaliveMon {
     pub timeout: u64,
     links: HashMap<u64, KaLink>,
+    /// monitor's own record: a keepalive went out on this link since its last echo / reset (superset of
+    /// 'an RTT probe is outstanding'); cleared when the link is torn down
+    probe_sent: HashMap<u64, bool>,
 }
 
 impl KeepaliveMon {
     pub fn new(timeout: u64) -> Self {
-        KeepaliveMon { timeout, links: HashMap::new() }
+        KeepaliveMon { timeout, links: HashMap::new(), probe_sent: HashMap::new() }
     }
 }
 
@@ -573,7 +576,12 @@ impl Monitor for KeepaliveMon {
             if should && !changed && !ambiguous {
                 rep.violation("C14.sample.missed", format!("arm#{} t={t}: echo with RTT {rtt:?} while a probe was outstanding produced no RTT sample", rec.no));
             }
-            if !should && changed {
+            if changed && !self.probe_sent.get(conn_id).copied().unwrap_or(false) {
+                rep.violation(
+                    "C14.sample.taken-without-probe-since-reset",
+                    format!("arm#{} t={t}: an echo changed the RTT state of link {:x} although no keepalive has gone out on it since its last echo / reset (the implementation still considered a probe outstanding: {})", rec.no, conn_id, pre.waiting_ka),
+                );
+            } else if !should && changed {
                 rep.violation(
                     &format!("C14.sample.taken-unlawfully.{class}"),
                     format!("arm#{} t={t}: keepalive of {} bytes (ts {ts:?}, rtt {rtt:?}, probe outstanding {}) changed the RTT state: last measurement {} -> {}, kalman {} -> {}, proof {} -> {}", rec.no, bytes.len(), pre.waiting_ka, pre.last_rtt_meas, post.last_rtt_meas, pre.kalman, post.kalman, pre.proof, post.proof),
@@ -581,6 +589,32 @@ impl Monitor for KeepaliveMon {
             }
             if should && post.kalman < pre.kalman - 50.0 {
                 rep.count("c14.sharp_high_to_low_transition");
+            }
+            // any keepalive-type datagram consumes the outstanding probe
+            self.probe_sent.insert(*conn_id, false);
+        }
+        // monitor's own probe record
+        // "a keepalive went out": the link's own keepalive stamp moved to this arm's time (this also covers a
+        // link whose socket refuses the send - the probe is armed when the frame is built)
+        for post in rec.post.iter() {
+            if let Some(pre) = find(&rec.pre, post.conn_id)
+                && post.last_keepalive_sent == Some(t)
+                && pre.last_keepalive_sent != Some(t)
+            {
+                self.probe_sent.insert(post.conn_id, true);
+            }
+        }
+        let _ = &seen;
+        for post in rec.post.iter() {
+            if let Some(pre) = find(&rec.pre, post.conn_id)
+                // a real link reset (teardown for recovery / reconnect): the link goes back to the registering
+                // phase or gets a new socket. REG_ERR alone only clears `connected` and cancels nothing.
+                && ((!pre.phase.starts_with("registering") && post.phase.starts_with("registering")) || pre.sock != post.sock)
+            {
+                if self.probe_sent.get(&post.conn_id).copied().unwrap_or(false) {
+                    rep.count("c14.probe_cancelled_by_link_reset");
+                }
+                self.probe_sent.insert(post.conn_id, false);
             }
         }
     }
